@@ -75,9 +75,9 @@ def build_cases(tier):
           ('uint16', 'Uint16', 'Uint16Array', 16, False), ('uint32', 'Uint32', 'Uint32Array', 32, False), ('int', 'Int', 'Int32Array', 32, True), ('uint', 'Uint', 'Uint32Array', 32, False)]
     for gt, nd, cls, bits, signed in TA:
         rd = 'Int()' if (signed or bits < 32) else 'Uint64()'
-        C.append(T('typed_array_%s' % gt, JS, NEW + 'x := Nondet%s(0)\ny := Nondet%s(1)\nn := NondetRange(2, 0, 3)\nbase := []%s{7, x, y, 9, 11}\ns := base[1 : 1+n]\no.Set("s", s)\njs_ := o.Get("s")\nback := js_.Interface().([]%s)\n'
-                   'sum := %s(0)\nfor _, e := range back {\n\tsum += e\n}\nprintln("c", js_.Get("constructor") == js.Global.Get("%s"), js_.Length(), len(back), js.Global.Get("Array").Call("isArray", js_).Bool())\nprintln("v", int64(sum) == int64(sumOf(s)), n == 0 || int64(js_.Index(0).%s) == int64(x))' % (nd, nd, gt, {'int32': 'int', 'uint32': 'uint'}.get(gt, gt), {'int32': 'int', 'uint32': 'uint'}.get(gt, gt), cls, rd),
-                   lambda inp: ok([('c', ['true', 'in_2', 'in_2', 'false']), ('v', ['true', 'true'])]), ))
+        C.append(T('typed_array_%s' % gt, JS, NEW + 'x := Nondet%s(0)\ny := Nondet%s(1)\nn := NondetRange(2, 0, 3)\nbase := []%s{7, x, y, 9, 11}\ns := base[1 : 1+n]\no.Set("s", s)\ncapped := base[:n:n]\no.Set("capped", capped)\njs_ := o.Get("s")\nback := js_.Interface().([]%s)\n'
+                   'sum := %s(0)\nfor _, e := range back {\n\tsum += e\n}\nprintln("c", js_.Get("constructor") == js.Global.Get("%s"), js_.Length(), len(back), js.Global.Get("Array").Call("isArray", js_).Bool())\nprintln("v", int64(sum) == int64(sumOf(s)), n == 0 || int64(js_.Index(0).%s) == int64(x), o.Get("capped").Length(), len(o.Get("capped").Interface().([]%s)))' % (nd, nd, gt, {'int32': 'int', 'uint32': 'uint'}.get(gt, gt), {'int32': 'int', 'uint32': 'uint'}.get(gt, gt), cls, rd, {'int32': 'int', 'uint32': 'uint'}.get(gt, gt)),
+                   lambda inp: ok([('c', ['true', 'in_2', 'in_2', 'false']), ('v', ['true', 'true', 'in_2', 'in_2'])]), ))
         C[-1].decl = JS + '//go:noinline\nfunc sumOf(s []%s) %s {\n\tvar t %s\n\tfor _, e := range s {\n\t\tt += %s(e)\n\t}\n\treturn t\n}\n' % (gt, {'int32': 'int', 'uint32': 'uint'}.get(gt, gt), {'int32': 'int', 'uint32': 'uint'}.get(gt, gt), {'int32': 'int', 'uint32': 'uint'}.get(gt, gt))
     C.append(T('typed_array_floats', JS, NEW + 'f := NondetFloat64(0)\ng := NondetFloat32(1)\no.Set("f", []float64{f, 1.5})\no.Set("g", []float32{g})\nVerifOutF64("f", o.Get("f").Index(0).Float())\nVerifOutF64("g", o.Get("g").Index(0).Float())\nprintln("c", o.Get("f").Get("constructor") == js.Global.Get("Float64Array"), o.Get("g").Get("constructor") == js.Global.Get("Float32Array"), len(o.Get("f").Interface().([]float64)), len(o.Get("g").Interface().([]float32)))',
                lambda inp: ok([('f', ['in_0']), ('g', ['((_ to_fp 11 53) RNE in_1)']), ('c', ['true', 'true', '2', '1'])])))
